@@ -657,6 +657,9 @@ class CInterp:
                 size = int(qt[qt.index("[") + 1: qt.index("]")])  # outermost dimension
                 r = Region(d["name"], "real" if ("float" in qt or "double" in qt) else "int", size)
                 r.local = [None] * size
+                elem = qt[: qt.index("[")].replace("struct ", "").strip()
+                if elem in getattr(self, "struct_types", {}):
+                    r.local = [StructObj(elem, **{f: None for f in self.struct_types[elem]}) for _ in range(size)]
                 if init and init[0].get("kind") == "InitListExpr":
                     vals = [self.rv(self.expr(c, env)) for c in init[0].get("inner", [])]
                     for i, v in enumerate(vals):
@@ -1081,6 +1084,8 @@ class CInterp:
             self.allocs = getattr(self, "allocs", [])
             self.allocs.append(r)
             return Ptr(r, 0)
+        if qt.rstrip().endswith("*") and isinstance(x, int) and not isinstance(x, bool) and x == 0:
+            return NULL  # ((void *) 0)
         return self.coerce(x, qt) if qt in ("int", "float", "double") else x
 
     e_CXXFunctionalCastExpr = e_CStyleCastExpr
